@@ -1126,9 +1126,27 @@ func (in *inst) binop(st *State, x *ssa.BinOp) AVal {
 	if a.Kind != KInt || b.Kind != KInt {
 		return in.a.freshInt(st, x.Type(), x.Name())
 	}
+	// arithmetic in an explicitly sized type of at most 32 bits wraps around: the exact linear
+	// result is used only when it provably fits the type (int / uint / 64-bit types are trusted
+	// not to overflow, see DESIGN.md)
+	narrow := func(r Lin) AVal {
+		bt, ok := x.Type().Underlying().(*types.Basic)
+		if !ok {
+			return AVal{Kind: KInt, Int: r}
+		}
+		switch bt.Kind() {
+		case types.Int8, types.Int16, types.Int32, types.Uint8, types.Uint16, types.Uint32:
+			tmin, tmax, _ := in.a.typeRange(x.Type())
+			if Proves(st.Facts, GE(r, ConstBig(tmin))) && Proves(st.Facts, LE(r, ConstBig(tmax))) {
+				return AVal{Kind: KInt, Int: r}
+			}
+			return in.a.freshInt(st, x.Type(), x.Name())
+		}
+		return AVal{Kind: KInt, Int: r}
+	}
 	switch x.Op {
 	case token.ADD:
-		return AVal{Kind: KInt, Int: a.Int.Add(b.Int)}
+		return narrow(a.Int.Add(b.Int))
 	case token.SUB:
 		_, _, _ = a, b, st
 		// unsigned subtraction can wrap: exact only if provably non-negative
@@ -1139,13 +1157,13 @@ func (in *inst) binop(st *State, x *ssa.BinOp) AVal {
 			}
 			return in.a.freshInt(st, x.Type(), x.Name())
 		}
-		return AVal{Kind: KInt, Int: a.Int.Sub(b.Int)}
+		return narrow(a.Int.Sub(b.Int))
 	case token.MUL:
 		if b.Int.IsConst() {
-			return AVal{Kind: KInt, Int: a.Int.Scale(b.Int.K)}
+			return narrow(a.Int.Scale(b.Int.K))
 		}
 		if a.Int.IsConst() {
-			return AVal{Kind: KInt, Int: b.Int.Scale(a.Int.K)}
+			return narrow(b.Int.Scale(a.Int.K))
 		}
 	case token.AND:
 		// x & m with a non-negative constant mask lies in [0, m]
